@@ -78,6 +78,20 @@ CLAIMED = {
         technique="Lean 4 proof (sound abstract interpretation over a generated program) + AST translator + dynamic trace validation",
         note=TB + " lax.scan/jit/checkpoint control-flow semantics and eager = jitted operation order are trusted; real MPI replaced by harness/fakempi.py.",
     ),
+    "C12": dict(
+        category="proof",
+        text=("On the programs regenerated from sampling.py: the AD entry points with and without orbital relaxation are the same program once "
+              "`optimize` is erased, and the AD entry point without relaxation is the plain sampler once the intermediate rebuilds are erased "
+              "(generated `decide` obligations), and erasing operations that act as the identity does not change any run (run_eraseTags, for every "
+              "implementation, history and option branch) - hence equal energies for a converged trial / at zero coupling. Every call to a "
+              "sampler/hamiltonian/propagator/trial method matches the callee's signature (static arity check = callability). Estimator theorems: "
+              "cap semantics, no-outlier case = weighted mean, constant local energy, batched = map for every batch split, single block. "
+              "Tied to the code by running all six entry points over the option matrix (walker type x n_batch x block structure) and comparing the "
+              "equated energies, reproducibility, batch independence, and the single-block energy with the exact Lean estimator on the returned walkers."),
+        design_ref="DESIGN.md §5/C12",
+        technique="Lean 4 proof over translator-generated programs (erasure soundness, decide obligations) + exact estimator correspondence",
+        note=TB + " Equalities hold under the stated hypotheses (optimize = id on a converged trial; rebuild = id at zero coupling), which the run instantiates; Python dispatch beyond arity is covered by actually calling every entry point.",
+    ),
 }
 
 NOT_YET = {}
